@@ -547,6 +547,72 @@ func c05(c *Ctx) {
 			}
 			return true
 		})
+		// the library forms that combine the search and the confirmation: sort.Find(n, func(i) int { return cmp(k, Key(i)) }) and
+		// slices.BinarySearchFunc(list, k, func(e, t) int { return cmp(e.Key, t) }), with the `found` result in use
+		{
+			kParam := fn.Obj.Type().(*types.Signature).Params().At(0)
+			isK := func(e ast.Expr) bool {
+				if cv, ok := unparen(e).(*ast.CallExpr); ok && len(cv.Args) == 1 && ainfo.Types[cv.Fun].IsType() {
+					e = cv.Args[0] // string(k)
+				}
+				return sameVar(ainfo, e, kParam)
+			}
+			isKeyField := func(e ast.Expr) bool {
+				if cv, ok := unparen(e).(*ast.CallExpr); ok && len(cv.Args) == 1 && ainfo.Types[cv.Fun].IsType() {
+					e = cv.Args[0]
+				}
+				fv, _ := fieldOf(ainfo, e)
+				return fv != nil && fv.Name() == "Key"
+			}
+			threeWay := func(lit *ast.FuncLit) (a, b ast.Expr) {
+				if lit == nil || len(lit.Body.List) != 1 {
+					return nil, nil
+				}
+				rs, ok := lit.Body.List[0].(*ast.ReturnStmt)
+				if !ok || len(rs.Results) != 1 {
+					return nil, nil
+				}
+				call, ok := unparen(rs.Results[0]).(*ast.CallExpr)
+				if !ok || len(call.Args) != 2 || !(isCallTo(ainfo, call, "cmp.Compare") || isCallTo(ainfo, call, "strings.Compare")) {
+					return nil, nil
+				}
+				return call.Args[0], call.Args[1]
+			}
+			inspectNoLit(fn.Body(), func(n ast.Node) bool {
+				as, ok := n.(*ast.AssignStmt)
+				if !ok || len(as.Lhs) != 2 || len(as.Rhs) != 1 {
+					return true
+				}
+				call, ok := unparen(as.Rhs[0]).(*ast.CallExpr)
+				if !ok {
+					return true
+				}
+				if id, isID := as.Lhs[1].(*ast.Ident); !isID || id.Name == "_" {
+					return true
+				}
+				switch {
+				case isCallTo(ainfo, call, "sort.Find") && len(call.Args) == 2:
+					lit, _ := unparen(call.Args[1]).(*ast.FuncLit)
+					if a, b := threeWay(lit); a != nil && isK(a) && isKeyField(b) {
+						geq, eq = true, true
+					}
+				case isCallTo(ainfo, call, "slices.BinarySearchFunc") && len(call.Args) == 3 && isK(call.Args[1]):
+					lit, _ := unparen(call.Args[2]).(*ast.FuncLit)
+					if a, b := threeWay(lit); a != nil && isKeyField(a) && lit.Type.Params != nil && lit.Type.Params.NumFields() == 2 {
+						var tgt types.Object
+						for _, f := range lit.Type.Params.List {
+							for _, nm := range f.Names {
+								tgt = ainfo.Defs[nm]
+							}
+						}
+						if tgt != nil && sameVar(ainfo, b, tgt) {
+							geq, eq = true, true
+						}
+					}
+				}
+				return true
+			})
+		}
 		c.Check(geq && eq, "R5", "attribute|(*Set).Value|search Key ≥ k, hit confirmed by Key == k", at(ax.M, fn.Pos()), "binary search over the sorted set", "lookup predicate changed: keys are not found or a neighbouring key's value is returned")
 	}
 	if fn := c.Fn(ax, "R5", "(*Set).Equals"); fn != nil {
@@ -581,6 +647,71 @@ func c05(c *Ctx) {
 			}
 		}
 		c.Check(good, "R5", "attribute|(*Set).Equivalent|nil/invalid ⇒ emptySet.equivalent", at(ax.M, fn.Pos()), "all empty sets share one identity", "nil and empty sets no longer share an identity")
+	}
+	// … and that shared identity is the one computeDistinct builds for an empty list (Filter and NewSetWithFiltered reach
+	// computeDistinct with nothing left): a [0]KeyValue array. A nil interface or any other value splits the empty sets in two.
+	if ev, _ := ax.Pkg.Types.Scope().Lookup("emptySet").(*types.Var); ev == nil {
+		c.Missing("R5", "attribute.emptySet")
+	} else {
+		var init ast.Expr
+		for _, file := range ax.Pkg.Syntax {
+			ast.Inspect(file, func(n ast.Node) bool {
+				if vs, ok := n.(*ast.ValueSpec); ok {
+					for i, nm := range vs.Names {
+						if ainfo.Defs[nm] == types.Object(ev) && i < len(vs.Values) {
+							init = vs.Values[i]
+						}
+					}
+				}
+				return true
+			})
+		}
+		good, why := false, "emptySet has no initialiser: its identity is the nil interface"
+		fEquiv, fIface := lookupField(ax.Pkg, "Set", "equivalent"), lookupField(ax.Pkg, "Distinct", "iface")
+		if init != nil {
+			why = "the identity stored in emptySet is not a [0]KeyValue array"
+			e := unparen(init)
+			if u, ok := e.(*ast.UnaryExpr); ok && u.Op == token.AND {
+				e = unparen(u.X)
+			}
+			var ifaceVal ast.Expr
+			if cl, ok := e.(*ast.CompositeLit); ok {
+				for _, el := range cl.Elts {
+					if kv, ok := el.(*ast.KeyValueExpr); ok {
+						if id, ok := kv.Key.(*ast.Ident); ok && fEquiv != nil && ainfo.Uses[id] == types.Object(fEquiv) {
+							switch d := unparen(kv.Value).(type) {
+							case *ast.CompositeLit:
+								for _, el2 := range d.Elts {
+									if kv2, ok := el2.(*ast.KeyValueExpr); ok {
+										if id2, ok := kv2.Key.(*ast.Ident); ok && fIface != nil && ainfo.Uses[id2] == types.Object(fIface) {
+											ifaceVal = kv2.Value
+										}
+									}
+								}
+							case *ast.CallExpr:
+								// computeDistinct(nil) / computeDistinct([]KeyValue{}) builds the same value
+								if cd := ax.Func("computeDistinct"); cd != nil && callToDecl(ainfo, cd)(d) && len(d.Args) == 1 {
+									if isNilIdent(ainfo, d.Args[0]) {
+										good = true
+									} else if al, ok := unparen(d.Args[0]).(*ast.CompositeLit); ok && len(al.Elts) == 0 {
+										good = true
+									}
+								}
+							}
+						}
+					}
+				}
+			}
+			if ifaceVal != nil {
+				if arr, ok := ainfo.TypeOf(ifaceVal).Underlying().(*types.Array); ok && arr.Len() == 0 {
+					if nn := namedOf(arr.Elem()); nn != nil && nn.Obj().Name() == "KeyValue" {
+						good = true
+					}
+				}
+			}
+		}
+		c.Check(good, "R5", "attribute|emptySet|identity of the empty set = computeDistinct of an empty list ([0]KeyValue)", at(ax.M, ev.Pos()), "one identity for every empty set however it was produced",
+			why+": a set emptied by Filter / NewSetWithFiltered (identity [0]KeyValue{} from computeDistinct) is no longer Equal to EmptySet(), NewSet() or the zero Set")
 	}
 }
 
